@@ -135,7 +135,7 @@ CHECKS = {
         text="For every entry of the extension / file-name tables, every --style, --single-line / --multi-line where "
              "supported, .license variants, templates, all bundles (prefixes, year forms, several holders / licences / "
              "contributors) and pre-existing contents, and for invocations over several files, TLC checks that after a "
-             "run reporting success the linter reads exactly what the file declared before plus the request, per file. In addition Workflow.tla (the tool as a state machine over what the project declares: annotate / download / download --all / lint / spdx / convert-dep5 with their documented effect and exit status; Monotone, ReadersReadOnly, ComplianceReachable, DownloadAllExact model-checked from every initial state) is replayed: TLC-simulated command sequences run on a real project and the abstract state observed after every command must be the one the specification allows.",
+             "run reporting success the linter reads exactly what the file declared before plus the request, per file. In addition Workflow.tla (the tool as a state machine over what the project declares: annotate / download / download --all / lint / spdx / convert-dep5 with their documented effect and exit status; Monotone, ReadersReadOnly, ComplianceReachable, DownloadAllExact model-checked from every initial state) is replayed: TLC-simulated command sequences run on a real project and the abstract state observed after every command must be the one the specification allows. Targets.tla (the decision table: kind of file x what FILE.license is x dot-license option x --style -> header in the file / in the sibling / nowhere, exit status, fate of the other files; M |= ten rules R model-checked) is replayed cell by cell on the real tool.",
         note="The linter's view is taken from `reuse lint --json` and the tool's own reader (contributors); requests are concretised from small pools; files that the linter never lists (excluded names, files left empty) are outside the domain.",
         ref="5/C07"),
     "C10": dict(
@@ -171,7 +171,7 @@ CHECKS = {
              "(mutually exclusive options, unsupported or mixed line modes, missing template, nothing requested) and unknown "
              "file types at every position, TLC checks: a file that did not end up complete is byte-identical and has no new "
              "sibling, files without a reason to fail are complete, exit status 0 iff nothing failed, usage errors give "
-             "exit 2 with an untouched tree, lossy templates are refused.",
+             "exit 2 with an untouched tree, lossy templates are refused. Targets.tla (the decision table: kind of file x what FILE.license is x dot-license option x --style -> header in the file / in the sibling / nowhere, exit status, fate of the other files; M |= ten rules R model-checked) is replayed cell by cell on the real tool.",
         note="The linter's view is taken from `reuse lint --json` and the tool's own reader (contributors); requests are concretised from small pools. Which command lines are usage errors / which templates cannot yield a valid header is "
              "stated by the generator from the documentation.",
         ref="5/C11"),
@@ -227,7 +227,7 @@ CHECKS = {
              "an outside sentinel, an ignored file, LICENSES/, .reuse/dep5 and a read-only file; TLC checks that everything "
              "that changed (content, mode, mtime, link target) lies in the command's documented footprint and that nothing "
              "outside the project changed. Every CLI invocation of the repository's tests/test_cli_*.py is recorded by a pytest "
-             "plugin (snapshots around it) and judged by the same specification.",
+             "plugin (snapshots around it) and judged by the same specification. Targets.tla (the decision table: kind of file x what FILE.license is x dot-license option x --style -> header in the file / in the sibling / nowhere, exit status, fate of the other files; M |= ten rules R model-checked) is replayed cell by cell on the real tool.",
         note="The covered set for `annotate -r` is the tool's own lint listing before the command (C03's subject); .git/ is "
              "part of the snapshots and Git's cached stat information is made stale before every command; the network is a stub that always succeeds. "
              "Workflow.tla behaviours are replayed as well (which command may change declarations, LICENSES/, siblings, the project-wide declaration).",
